@@ -284,6 +284,11 @@ class FactBase:
                                 % (kw, len(r), [f.key for f in r][:6]))
         return r[0]
 
+    def inl(self, fn, **kw):
+        """Inlined view of fn (private helpers and closure combinators expanded), see vlint.inline."""
+        from .inline import inlined
+        return inlined(self, fn, **kw)
+
     def closures_of(self, fn):
         return [f for f in self.fns.values() if f.rec.get("closure_of") == fn.key]
 
